@@ -158,7 +158,7 @@ BY_NAME = {
     'details': text, 'site': text, 'allocation_constraints': text, 'service_endpoint': text, 'controller_url': text,
     'technology': text, 'mirror_port': text, 'mirror_vlan': text, 'model': text,
     'boot_script': lambda r: text(r, 1023),
-    'image_ref': text_nocomma, 'image_type': text_nocomma,
+    'image_ref': lambda r: (text(r, 300) if r.random() < 0.7 else 'img,v2,' + text(r, 20)), 'image_type': text_nocomma,
     'management_ip': ip_text,
     'capacities': G.gen_capacities, 'capacity_allocations': G.gen_capacities,
     'labels': G.gen_labels, 'label_allocations': G.gen_labels, 'peer_labels': G.gen_labels,
